@@ -86,7 +86,12 @@ fn reexec(cfg: &Cfg, prefix: &[Step], out: &mut Out) -> Session {
 fn call_emit(sess: &mut Session, rq: &Rq, out: &mut Out) -> Step {
     let st = sess.call(rq);
     out.line(st.op_line(), st.imp_line());
+    note_panic(sess, &st, out);
     st
+}
+
+fn note_panic(sess: &Session, st: &Step, out: &mut Out) {
+    crate::gcra::report_panic(sess, st, out);
 }
 
 // ---------------------------------------------------------------------------------------
@@ -103,6 +108,10 @@ pub fn probe(seed: u64, n: usize, out: &mut Out) {
             monotone: true,
             noise_pct: rng.pick(&[0u64, 20]),
             invalid_pct: 0,
+            // fixed limits per key: C03 is quantified over the histories of C01/C02.  (Under mixed limits on one key the
+            // unmodified code does not satisfy the probes: a TAT stored under slow limits makes a zero-quantity request
+            // under fast limits "denied with remaining 0", and a denied request's reset_after says nothing about the
+            // lifetime of the entry written under the other limits.)
             mixed_pct: 0,
             zero_pct: 10,
             extreme_pct: 0,
@@ -112,10 +121,18 @@ pub fn probe(seed: u64, n: usize, out: &mut Out) {
         emit_session(&sess, &steps, 0, out);
         session_hash(out, &cfg, &steps);
         let fixed = fixed_keys(&steps);
+        let mixed = hp.mixed_pct > 0;
         for _ in 0..4 {
             let i = rng.below(steps.len() as u64) as usize;
             let s = &steps[i];
-            let Some(lim) = fixed.get(&s.rq.key).copied() else { continue };
+            let lim = match fixed.get(&s.rq.key).copied() {
+                Some(l) => l,
+                None if mixed && s.rq.lim.in_d() => {
+                    out.bump("probed_responses_on_mixed_limit_keys");
+                    s.rq.lim
+                }
+                None => continue,
+            };
             let Resp::Ok { allowed, remaining, reset_ns, retry_ns, .. } = s.resp.clone() else { continue };
             out.bump("probed_responses");
             let mk = |q: i64, now: i64| Rq { key: s.rq.key.clone(), lim, q, now };
@@ -797,6 +814,14 @@ pub fn regress(seed: u64, n: usize, out: &mut Out) {
                 Cfg::Periodic { cap: 8, interval_ns: 0 },
                 Cfg::Adaptive { cap: 8, min_ns: 0, max_ns: 0, max_ops: 1 },
                 Cfg::Prob { cap: 8, modulus: 2, ops: 0 },
+            ])
+        } else if rng.chance(1, 3) {
+            // the stores as the server builds them by default (cleanup rare: bookkeeping accumulates between sweeps)
+            rng.pick(&[
+                Cfg::Adaptive { cap: 1000, min_ns: 1_000_000_000, max_ns: 300_000_000_000, max_ops: 100_000 },
+                Cfg::Adaptive { cap: 8, min_ns: 5_000_000_000, max_ns: 300_000_000_000, max_ops: 100_000 },
+                Cfg::Periodic { cap: 1000, interval_ns: 60_000_000_000 },
+                Cfg::Prob { cap: 1000, modulus: 10_000, ops: 0 },
             ])
         } else {
             Cfg::random(&mut rng)
